@@ -91,6 +91,12 @@ class SqliteImpl(SqlImpl):
 
 with SqliteImpl.impl_store.impl_manager as impl:
 
+    @impl(ops.bool_invert)
+    def _invert(x):
+        # SQLAlchemy gives the negation of a conjunction / disjunction no type. SQLite
+        # returns 0 / 1, which would then not be converted to a boolean on export.
+        return sqa.type_coerce(~x, sqa.Boolean())
+
     @impl(ops.round)
     def _round(x, decimals):
         if decimals >= 0:
